@@ -1,0 +1,52 @@
+//go:build verif
+
+// Contracts for package imapclient, checked by /verif/govc (see
+// /verif/DESIGN.md). Only compiled with the build tag "verif".
+
+package imapclient
+
+import "github.com/emersion/go-imap/v2"
+
+// ---------------------------------------------------------------------------
+// C11: no response parser or handler of *Client panics on any decoder outcome
+// (index/slice bounds, type assertions, explicit panics, division by zero).
+// C12: the mirrored connection state and mailbox summary.
+
+//@ rule (c *Client)
+//@   props C11:bounds,assert-type,div0,panic-unreachable C12:post,pre@call
+//@   requires c != nil && mirrorOK(c)
+//@   exclude read Close
+
+// mirrorOK: the client's summary exists exactly in the selected state.
+//
+//@ pure
+func mirrorOK(c *Client) bool {
+	return (c.state == imap.ConnStateSelected) == (c.mailbox != nil)
+}
+
+//@ func (c *Client) setState(state imap.ConnState)
+//@   ensures c.state == state
+//@   ensures state != imap.ConnStateSelected ==> c.mailbox == nil
+//@   ensures state == imap.ConnStateSelected ==> c.mailbox == old(c.mailbox)
+
+// A unilateral EXISTS updates the message count of the summary and nothing else.
+//
+//@ func (c *Client) handleExists(num uint32) (err error)
+//@   ensures c.state == old(c.state) && mirrorOK(c)
+//@   ensures c.mailbox != old(c.mailbox) ==> c.mailbox.NumMessages == num && c.mailbox.Name == old(c.mailbox.Name) && __same(c.mailbox.Flags, old(c.mailbox.Flags)) && __same(c.mailbox.PermanentFlags, old(c.mailbox.PermanentFlags))
+//@   ensures c.mailbox == old(c.mailbox) && c.mailbox != nil ==> c.mailbox.NumMessages == old(c.mailbox.NumMessages)
+
+// EXPUNGE decrements the count (never below zero) and changes nothing else.
+//
+//@ func (c *Client) handleExpunge(seqNum uint32) (err error)
+//@   ensures c.state == old(c.state) && mirrorOK(c)
+//@   ensures old(c.state) == imap.ConnStateSelected && old(c.mailbox.NumMessages) > 0 ==> c.mailbox.NumMessages == old(c.mailbox.NumMessages)-1
+//@   ensures old(c.state) == imap.ConnStateSelected && old(c.mailbox.NumMessages) == 0 ==> c.mailbox.NumMessages == 0
+//@   ensures c.mailbox != nil ==> c.mailbox.Name == old(c.mailbox.Name) && __same(c.mailbox.Flags, old(c.mailbox.Flags)) && __same(c.mailbox.PermanentFlags, old(c.mailbox.PermanentFlags))
+
+// FLAGS replaces the flag list of the summary; the permanent flags, the
+// message count and the name are unchanged.
+//
+//@ func (c *Client) handleFlags() (err error)
+//@   ensures c.state == old(c.state) && mirrorOK(c)
+//@   ensures c.mailbox != nil ==> c.mailbox.Name == old(c.mailbox.Name) && c.mailbox.NumMessages == old(c.mailbox.NumMessages) && __same(c.mailbox.PermanentFlags, old(c.mailbox.PermanentFlags))
